@@ -163,7 +163,11 @@ theorem inv_step (f : Facts) (hf : f.good = true) (s s' : St) (e : Ev) (h : Inv 
     · simp only [Option.some.injEq] at hs; subst hs; exact ⟨i1, i2, i3⟩
   | send m =>
     simp only [step] at hs
-    split at hs <;> (simp only [Option.some.injEq] at hs; subst hs; exact ⟨i1, i2, i3⟩)
+    split at hs
+    · split at hs <;> (simp only [Option.some.injEq] at hs; subst hs; exact ⟨i1, i2, i3⟩)
+    · simp only [Option.some.injEq] at hs; subst hs; exact ⟨i1, i2, i3⟩
+  | breakStream n =>
+    simp only [step, Option.some.injEq] at hs; subst hs; exact ⟨i1, i2, i3⟩
   | sendBegin m =>
     simp only [step] at hs
     split at hs
@@ -175,7 +179,7 @@ theorem inv_step (f : Facts) (hf : f.good = true) (s s' : St) (e : Ev) (h : Inv 
     · simp at hs
     · split at hs
       · split at hs <;> (simp only [Option.some.injEq] at hs; subst hs; exact ⟨i1, i2, i3⟩)
-      · simp only [Option.some.injEq] at hs; subst hs; exact ⟨i1, i2, i3⟩
+      · split at hs <;> (simp only [Option.some.injEq] at hs; subst hs; exact ⟨i1, i2, i3⟩)
 
 theorem inv_run (f : Facts) (hf : f.good = true) (evs : List Ev) :
     ∀ (s s' : St), Inv s → run f s evs = some s' → Inv s' := by
@@ -195,11 +199,15 @@ theorem inv_run (f : Facts) (hf : f.good = true) (evs : List Ev) :
     entry of the session is that stream — so every send succeeds and is delivered on it. -/
 theorem C11_newest_owns (f : Facts) (hf : f.good = true) (evs : List Ev) (s : St)
     (hr : run f {} evs = some s) (n : Nat) (hl : listening s n = true) (m : Nat) :
-    s.table = some n ∧ step f s (.send m) = some { s with delivered := s.delivered ++ [(n, m)] } := by
+    s.table = some n ∧
+    (s.broken.contains n = false →   -- the peer of that stream is alive (writes on it succeed)
+      step f s (.send m) = some { s with delivered := s.delivered ++ [(n, m)] }) := by
   obtain ⟨i1, i2, _⟩ := inv_run f hf evs {} s inv_init hr
   simp only [listening, Bool.and_eq_true, Bool.not_eq_true'] at hl
   have ht : s.table = some n := i2 n (i1 n hl.1) hl.2
-  exact ⟨ht, by simp [step, ht]⟩
+  refine ⟨ht, fun hb => ?_⟩
+  have hb' : n ∉ s.broken := by simpa using hb
+  simp [step, ht, hb']
 
 /-- At most one stream is listening at any time (the old one has been ended by the time the new one's headers
     are out). -/
@@ -217,6 +225,25 @@ theorem C11_exit_removes_self_only (f : Facts) (hid : f.identityCheckOnExit = tr
   split at hs
   · simp only [Option.some.injEq] at hs; subst hs; rfl
   · simp at hs
+
+/-- A send — successful, failed on a dead peer, or not deliverable at all — never changes which stream owns the
+    session, nor any handler's state: in particular a failed write on an old stream cannot evict the new one. -/
+theorem C11_send_leaves_table (f : Facts) (s s' : St) (e : Ev)
+    (he : (∃ m, e = .send m) ∨ (∃ m, e = .sendBegin m) ∨ (∃ m, e = .sendEnd m) ∨ (∃ n, e = .breakStream n))
+    (hs : step f s e = some s') : s'.table = s.table ∧ s'.hs = s.hs := by
+  rcases he with ⟨m, rfl⟩ | ⟨m, rfl⟩ | ⟨m, rfl⟩ | ⟨n, rfl⟩ <;> simp only [step] at hs
+  · split at hs
+    · split at hs <;> (simp at hs; subst hs; exact ⟨rfl, rfl⟩)
+    · simp at hs; subst hs; exact ⟨rfl, rfl⟩
+  · split at hs
+    · simp at hs
+    · split at hs <;> (simp at hs; subst hs; exact ⟨rfl, rfl⟩)
+  · split at hs
+    · simp at hs
+    · split at hs
+      · split at hs <;> (simp at hs; subst hs; exact ⟨rfl, rfl⟩)
+      · split at hs <;> (simp at hs; subst hs; exact ⟨rfl, rfl⟩)
+  · simp at hs; subst hs; exact ⟨rfl, rfl⟩
 
 /-- The regenerated facts about today's `handleGet` are in the good region. -/
 theorem C11_facts_good : Mcp.Gen.handleGetFacts.good = true := by decide
@@ -246,7 +273,12 @@ private theorem step_crashed (f : Facts) (hc : f.closedMarkOnExit = true) (s s' 
   | wake n => simp only [step] at h; split at h <;> simp at h; subst h; rfl
   | exit_ n => simp only [step] at h; split at h <;> simp at h; subst h; rfl
   | delete => simp only [step] at h; split at h <;> (simp at h; subst h; rfl)
-  | send m => simp only [step] at h; split at h <;> (simp at h; subst h; rfl)
+  | send m =>
+    simp only [step] at h
+    split at h
+    · split at h <;> (simp at h; subst h; rfl)
+    · simp at h; subst h; rfl
+  | breakStream n => simp only [step, Option.some.injEq] at h; subst h; rfl
   | sendBegin m =>
     simp only [step] at h
     split at h
@@ -256,7 +288,9 @@ private theorem step_crashed (f : Facts) (hc : f.closedMarkOnExit = true) (s s' 
     simp only [step, hc, ite_true] at h
     split at h
     · simp at h
-    · split at h <;> (simp at h; subst h; rfl)
+    · split at h
+      · simp at h; subst h; rfl
+      · split at h <;> (simp at h; subst h; rfl)
 
 /-- **A send never writes to a finished response.** With the closed mark (set by the exiting handler under the
     connection's write lock and checked by writers under that lock) no schedule — whatever the interleaving of a
